@@ -776,7 +776,16 @@ def mech_list_with_duplicates(rnd, positive, repeats, unknown, names=None):
 CONF_KEYS = ['directories.tokendir', 'objectstore.backend', 'objectstore.umask', 'log.level', 'slots.removable', 'slots.mechanisms', 'library.reset_on_fork']
 def mutate_conf(rnd, text, d):
     """one hostile edit of softhsm2.conf -> (class label, bytes).  `d` is the scratch dir (for path tricks)."""
-    r = rnd; lines = text.splitlines(); c = r.randrange(25)
+    r = rnd; lines = text.splitlines(); c = r.randrange(28)
+    def rep(key, val): return ('\n'.join([l for l in lines if not l.startswith(key)] + ['%s = %s' % (key, val)]) + '\n').encode('latin-1')
+    if c >= 25:
+        # text that ends up in a log message: conversion specifications in names and values of known and unknown settings (the text is data, never a format)
+        fmt = r.choice(['%s' * r.choice([1, 12, 150]), '%n', '%Y-%m-%d %n', '%x%x%x%x%n', '%99999999d', '%*d%s', '%1$s%2$n', '%%%s%%n%'])
+        where = r.randrange(4)
+        if where == 0: return 'format-string', (text + 'log.format = %s\n' % fmt).encode()
+        if where == 1: return 'format-string', (text + 'foo.%s = %s\n' % (fmt, fmt)).encode()
+        if where == 2: return 'format-string', rep(r.choice(CONF_KEYS), fmt)
+        return 'format-string', (text + '%s\n%s = 1\nslots.mechanisms = %s,CKM_%s\n' % (fmt, fmt, fmt, fmt)).encode()
     def rep(key, val): return ('\n'.join([l for l in lines if not l.startswith(key)] + ['%s = %s' % (key, val)]) + '\n').encode('latin-1')
     if c >= 22: return 'mechanisms-duplicates', rep('slots.mechanisms', mech_list_with_duplicates(r, positive=r.random() < 0.6, repeats=r.choice([2, 3, 5, 13, 40]), unknown=r.random() < 0.4))
     if c == 0: return 'long-line', rep(r.choice(CONF_KEYS), 'A' * r.choice([1000, 1010, 1022, 1023, 1024, 1025, 2047, 2048, 5000, 70000]))
